@@ -165,6 +165,7 @@ def run_history(case):
                     prior = [o for o in obs["ops"][:-1] if not o.startswith("synth")]
                     # the reference for "succeeds" is the same call on a fresh, unshared block in the same world
                     fresh_err = None
+                    fired_before_fresh = sum(w.fault_fired.values())
                     try:
                         fb_ = build.Builder(ast, continuous_env=w).block(ast["block"])
                         with common.time_limit(5):
@@ -173,6 +174,11 @@ def run_history(case):
                         fresh_err = "cap"
                     except Exception as fe:   # noqa
                         fresh_err = type(fe).__name__
+                        if common.is_injected(fe):
+                            fresh_err = "cap"
+                    if sum(w.fault_fired.values()) > fired_before_fresh:
+                        # an injected fault hit the reference call itself: it says nothing about the fresh block
+                        fresh_err = "cap"
                     if fresh_err == "cap" or fresh_err == type(err).__name__:
                         obs["ops"][-1] = "synth:fresh-fails-too"
                         exps.pop(op["out"], None)
@@ -187,7 +193,7 @@ def run_history(case):
                     continue
                 obs["synth_ok"] += 1
                 res = exps[op["out"]]
-                if not res and op["n"] > 0 and len(obs["ops"]) > 1 and op["strategy"] != "SMGen":
+                if not res and op["n"] > 0 and len(obs["ops"]) > 1 and op["strategy"] != "SMGen" and not faulted_now:
                     # nothing came back: is that the design, or the history?  Ask a fresh block in the same world.
                     try:
                         fb_ = build.Builder(ast, continuous_env=w).block(ast["block"])
